@@ -19,6 +19,7 @@ def run(ctx, crate):
     rule_int_digits_untrimmed(ctx, crate)
     rule_bytes_unit_delegated(ctx, crate)
     rule_duration_fields(ctx, crate)
+    rule_human_duration_forms_agree(ctx, crate)
 
 
 def rule_count_exact(ctx, crate, rule="R-COUNT-EXACT"):
@@ -270,3 +271,89 @@ def rule_duration_fields(ctx, crate, rule="R-DURATION-FIELDS"):
         ctx.check(ok, rule, "field-order:%s" % ("+".join(x[0] for x in seq) or "none"), b.name, K.fn_loc(b),
                   "a path prints %s" % seq,
                   "a path prints %s%s: expected [days,] hours, minutes, seconds with the days left out only when they are zero" % (seq, "" if zero or seq != short else " without testing days == 0"), cfg)
+
+
+def reaching_defs_at(b, local, site_bb):
+    """Definitions of `local` (assignments and call results, as (bb, k) ids) that reach the *end* of block site_bb: classic
+    forward dataflow with kills, one local."""
+    gen = {}
+    for bb in b.reachable():
+        last = None
+        for k, st in enumerate(b.stmts(bb)):
+            if st.get("k") == "assign" and st["lhs"]["l"] == local and not st["lhs"]["p"]:
+                last = (bb, k)
+        t = b.term(bb)
+        if t and t["k"] == "call" and t["dest"]["l"] == local and not t["dest"]["p"]:
+            last = (bb, "call")
+        if last:
+            gen[bb] = last
+    IN = {bb: set() for bb in b.reachable()}
+    OUT = {bb: ({gen[bb]} if bb in gen else set()) for bb in b.reachable()}
+    changed = True
+    while changed:
+        changed = False
+        for bb in b.reachable():
+            i = set()
+            for p_ in b.pred(bb):
+                if p_ in OUT:
+                    i |= OUT[p_]
+            o = {gen[bb]} if bb in gen else i
+            if i != IN[bb] or o != OUT[bb]:
+                IN[bb], OUT[bb] = i, o
+                changed = True
+    return OUT.get(site_bb, set())
+
+
+def rule_human_duration_forms_agree(ctx, crate, rule="R-HDURATION-FORMS-AGREE"):
+    """HumanDuration's rounding rule ("never '1 unit' above seconds", switch to the smaller unit just below 1.5 units) is
+    stated for the value, not for one spelling of it: the short form `{:#}` (which the library itself uses for {elapsed},
+    {eta}, {duration}) and the long form must print the same count. Necessary structural condition: every site that hands the
+    count to the formatter is reached by the same set of definitions of it (reaching definitions with kills) - a form that
+    returns before the `max(t, 2)` clamp prints the unclamped count."""
+    cfg = crate.config
+    b = K.find_one(ctx, crate, rule, r"<format::HumanDuration as std::fmt::Display>::fmt")
+    if not b:
+        return
+    sites = []
+    for c in b.calls(r"core::fmt::rt::Argument::<'_>::new_display"):
+        ta = c.callee.get("targs") or []
+        if not ta or ta[0] not in ("usize", "u64", "u128", "u32"):
+            continue
+        # the local the reference points to
+        roots = {tl for tl, tp in b.ref_origins().get(operand_local(c.args[0]), ()) if not tp}
+        l = operand_local(c.args[0])
+        for _ in range(6):
+            ds = [d for d in b.defs().get(l, ()) if d["kind"] == "assign"] if l is not None else []
+            if len(ds) == 1 and ds[0]["rv"]["k"] in ("ref", "copyderef") and not [e for e in ds[0]["rv"]["place"]["p"] if e != "*"]:
+                l = ds[0]["rv"]["place"]["l"]
+            elif len(ds) == 1 and ds[0]["rv"]["k"] == "use" and operand_local(ds[0]["rv"]["op"]) is not None:
+                pl_ = ds[0]["rv"]["op"]["place"]
+                if pl_["p"] and isinstance(pl_["p"][0], dict) and isinstance(pl_["p"][0].get("f"), int):
+                    # a component of the argument tuple built by format_args!
+                    td = [d for d in b.defs().get(pl_["l"], ()) if d["kind"] == "assign" and d["rv"]["k"] == "agg"]
+                    if len(td) == 1 and pl_["p"][0]["f"] < len(td[0]["rv"]["ops"]):
+                        l = operand_local(td[0]["rv"]["ops"][pl_["p"][0]["f"]])
+                        continue
+                    break
+                l = pl_["l"]
+            else:
+                break
+        if l is not None and b.locals[l]["ty"] in ("usize", "u64", "u128", "u32") and len([d for d in b.defs().get(l, ()) if d["kind"] in ("assign", "call")]) >= 1:
+            sites.append((c, l))
+    ctx.floor(rule, len(sites), 2, cfg, "sites that hand the count to the formatter")
+    if len(sites) < 2:
+        return
+    counts = {l for c, l in sites}
+    if len(counts) != 1:
+        ctx.bad(rule, "one-count", b.name, K.fn_loc(b), "the forms display different locals as the count (%d): they are computed separately" % len(counts), cfg)
+        return
+    t = next(iter(counts))
+    rd = [(c, frozenset(reaching_defs_at(b, t, c.bb))) for c, l in sites]
+    ref = rd[0][1]
+    for k, (c, s_) in enumerate(rd):
+        ctx.check(s_ == ref and bool(s_), rule, "same-count#%d" % k, b.name, c.loc(), "every form prints the count after the same adjustments",
+                  "this form prints the count as defined at %s while another form prints it as defined at %s: the short ({:#}) and the long form disagree "
+                  "(e.g. one of them skips the `max(t, 2)` clamp and prints \"1m\" where the other prints \"89 seconds\")" % (sorted(s_), sorted(ref)), cfg)
+    clamp = [k for k in b.calls(r"std::cmp::Ord::max", r"core::num::<impl \w+>::max", r"std::cmp::max")
+             if any(const_val(a) == 2 for a in k.args) and t in b.slice_args(k, through_calls=False).locals]
+    ctx.check(bool(clamp), rule, "clamp-exists", b.name, K.fn_loc(b), "the count is clamped to at least 2 for units above seconds", "the `max(count, 2)` clamp is gone", cfg)
